@@ -127,6 +127,28 @@ example :
       = 1 := by
   rfl
 
+/-- the renaming may PERMUTE the pattern's own names — no hypothesis above asks the names of the
+target to be disjoint from those of the pattern (`hinj` / `hfix` speak about `ρ` on the variables of
+the pattern only).  `f(a) + f(b) + g(a)` against `f(b) + f(a) + g(b)` (`a` and `b` exchanged): the
+operand `f(a)` occurs verbatim in the target and has to be paired with `f(b)` all the same (stream
+`unifier-renaming` of harness/props/c16.py runs the model and the code on these cases) -/
+example :
+    let p : Expr := .nary .sum [.call (.var "f") [.var "a"], .call (.var "f") [.var "b"],
+      .call (.var "g") [.var "a"]]
+    (unify ["a", "b"] p
+      (rename (fun v => if v = "a" then "b" else if v = "b" then "a" else v) p)).map (·.lmap)
+      = [[("a", .var "b"), ("b", .var "a")]] := by
+  rfl
+
+/-- … and a partial overlap (`a ↦ b`, `b ↦ x`) under a product with a nested sum -/
+example :
+    let p : Expr := .nary .prod [.nary .sum [.var "a", .call (.var "f") [.var "b"]],
+      .nary .sum [.var "b", .call (.var "f") [.var "a"]], .call (.var "g") [.var "a"]]
+    (unify ["a", "b"] p
+      (rename (fun v => if v = "a" then "b" else if v = "b" then "x" else v) p)).map (·.lmap)
+      = [[("a", .var "b"), ("b", .var "x")]] := by
+  rfl
+
 /-! ### the basic rules (no guard needed) -/
 
 /-- `unify_var`: a candidate variable against anything but a tuple / list binds exactly it (and
